@@ -61,8 +61,8 @@ def execute(name, state40, first_round, junk, entry="ascon_permute"):
     """Returns (result canonical state or None, list of problems)."""
     f, defs, mk, (to_l, from_l) = targets()[name]
     m = mk(program_text(name))
-    m.add_region(emu.STATE, to_l(state40), "state")
-    m.setup(emu.STATE, first_round, 0, junk)
+    m.add_region(m.STATE_ADDR, to_l(state40), "state")
+    m.setup(m.STATE_ADDR, first_round, 0, junk)
     problems = []
     try:
         m.run(entry)
@@ -70,7 +70,7 @@ def execute(name, state40, first_round, junk, entry="ascon_permute"):
         return None, ["interpreter stopped: %s" % e]
     problems += m.violations[:3]
     problems += m.abi_check()
-    return from_l(m.read_region(emu.STATE, 40)), problems
+    return from_l(m.read_region(m.STATE_ADDR, 40)), problems
 
 
 def gen_cases(n, sd, salt):
